@@ -6,6 +6,7 @@ import (
 	"crypto"
 	"crypto/rsa"
 	"fmt"
+	"math/big"
 	"sync"
 	"sync/atomic"
 	"testing"
@@ -226,6 +227,96 @@ func TestVerifTSSPSSOptions(t *testing.T) {
 					continue
 				}
 				lib.Count("tss-pss-options:verified")
+			}
+		}
+	}
+}
+
+// TestVerifTSSPKCS1v15Hashes: the PKCS#1 v1.5 padder serves every digest
+// algorithm crypto/rsa signs with - MD5 to SHA-512/256, RIPEMD-160, the
+// TLS 1.0 MD5+SHA1 pair (whose DigestInfo prefix is legitimately empty) and
+// "no hash" (crypto.Hash(0): the digest is signed as it is).  For each
+// (key, hash, digest) that crypto/rsa.SignPKCS1v15 accepts, the encoded
+// message the padder returns, raised to d, must be a signature
+// crypto/rsa.VerifyPKCS1v15 accepts; and a (2,3) threshold signature under the
+// same hash must verify as well.
+func TestVerifTSSPKCS1v15Hashes(t *testing.T) {
+	const mon = "TestVerifTSSPKCS1v15Hashes"
+	lib.Mandatory("tss-hashes:padded", "tss-hashes:threshold-signed")
+	hashes := []struct {
+		h    crypto.Hash
+		size int
+		name string
+	}{
+		{crypto.MD5, 16, "MD5"}, {crypto.SHA1, 20, "SHA1"}, {crypto.SHA224, 28, "SHA224"}, {crypto.SHA256, 32, "SHA256"},
+		{crypto.SHA384, 48, "SHA384"}, {crypto.SHA512, 64, "SHA512"}, {crypto.SHA512_224, 28, "SHA512_224"}, {crypto.SHA512_256, 32, "SHA512_256"},
+		{crypto.MD5SHA1, 36, "MD5SHA1"}, {crypto.RIPEMD160, 20, "RIPEMD160"}, {crypto.Hash(0), 20, "none/20"}, {crypto.Hash(0), 64, "none/64"},
+		{crypto.SHA3_256, 32, "SHA3_256"}, {crypto.SHA3_512, 64, "SHA3_512"},
+	}
+	for ki, kn := range []string{"plain-1024", "plain-2048", "plain-1027"} {
+		key := loadKey(t, kn).k
+		pub := &key.PublicKey
+		r := lib.NewRng("c17/hashes/"+kn, 0)
+		shares, err := tss.Deal(lib.NewRng("c17/hashes/deal/"+kn, 0), 3, 2, key, false)
+		if err != nil {
+			lib.Violation("C17:deal-error:tss-rsa", mon, lib.D("key", kn, "err", err))
+			continue
+		}
+		for _, hs := range hashes {
+			digest := r.Bytes(hs.size)
+			refSig, refErr := rsa.SignPKCS1v15(nil, key, hs.h, digest)
+			var em []byte
+			var perr error
+			pn := lib.Try("tss.PKCS1v15Padder.Pad", digest, func() { em, perr = (tss.PKCS1v15Padder{}).Pad(pub, hs.h, lib.Clone(digest)) })
+			lib.CaseS("tss-hashes", kn, hs.name)
+			if refErr != nil {
+				lib.Count("tss-hashes:not-signed-by-crypto-rsa:" + hs.name)
+				continue // crypto/rsa does not sign with it: nothing to compare with
+			}
+			lib.Count("tss-hashes:padded")
+			d := lib.D("key", kn, "hash", hs.name, "digest", digest)
+			switch {
+			case pn != nil:
+				d["panic"] = pn.Value
+				lib.Violation("C17:panic:tss-rsa:PKCS1v15Padder.Pad", mon, d)
+				continue
+			case perr != nil:
+				d["err"] = perr.Error()
+				lib.Violation("C17:padder-refuses-hash-crypto-rsa-signs-with:tss-rsa:PKCS1v15Padder", mon, d)
+				continue
+			}
+			sig := new(big.Int).Exp(new(big.Int).SetBytes(em), key.D, key.N).FillBytes(make([]byte, pub.Size()))
+			if rsa.VerifyPKCS1v15(pub, hs.h, digest, sig) != nil || !lib.Eq(sig, refSig) {
+				d["padded"], d["signature_from_padded"], d["crypto_rsa_signature"] = lib.Hex(em), lib.Hex(sig), lib.Hex(refSig)
+				lib.Violation("C17:padding-not-verified-by-crypto-rsa:tss-rsa:PKCS1v15Padder", mon, d)
+				continue
+			}
+			if ki > 1 && hs.size != 36 {
+				continue
+			}
+			// players {1,3} of the (2,3) sharing sign the padded digest
+			var ss []tss.SignShare
+			ok := true
+			for _, pi := range []int{0, 2} {
+				s, err := shares[pi].Sign(lib.NewRng("c17/hashes/sign", pi), pub, em, false)
+				if err != nil {
+					ok = false
+					d["err"] = err.Error()
+					break
+				}
+				ss = append(ss, s)
+			}
+			var tsig []byte
+			if ok {
+				var cerr error
+				if tsig, cerr = tss.CombineSignShares(pub, ss, em); cerr != nil {
+					ok = false
+					d["err"] = cerr.Error()
+				}
+			}
+			lib.Count("tss-hashes:threshold-signed")
+			if !ok || rsa.VerifyPKCS1v15(pub, hs.h, digest, tsig) != nil {
+				lib.Violation("C17:combine-fails:tss-rsa:pkcs1v15:"+hs.name, mon, d)
 			}
 		}
 	}
